@@ -423,6 +423,67 @@ class _St:
         return self
 
 
+class _HS:
+    trace = ()
+
+    def key(self):
+        return 0
+
+    def copy(self):
+        return _HS()
+
+    def at(self, node):
+        return self
+
+
+class _HandlerDomain(Domain):
+    """One handler entry (name, block) under a truth assignment of the
+    three ways a handler can match."""
+
+    def __init__(self, exact, bare, base):
+        self.v = {'exact': exact, 'bare': bare, 'base': base}
+        self.env = {}
+
+    def truth(self, e):
+        if isinstance(e, ast.UnaryOp) and isinstance(e.op, ast.Not):
+            v = self.truth(e.operand)
+            return None if v is None else not v
+        if isinstance(e, ast.Name) and e.id in self.env:
+            return self.env[e.id]
+        if isinstance(e, ast.Constant):
+            return bool(e.value)
+        t = ast.unparse(e)
+        if isinstance(e, ast.Compare) and len(e.ops) == 1 and \
+                isinstance(e.ops[0], (ast.Eq, ast.NotEq)):
+            pos = isinstance(e.ops[0], ast.Eq)
+            if '__name__' in t:
+                return self.v['exact'] == pos
+            if "''" in t or '""' in t:
+                return self.v['bare'] == pos
+        if isinstance(e, ast.Call) and 'match_base' in t:
+            return self.v['base']
+        return None
+
+    def branch(self, test, st):
+        v = self.truth(test)
+        if v is None:
+            return [(True, st), (False, st)]
+        return [(v, st)]
+
+    def raises(self, node, st):
+        return []
+
+    def effects(self, stmt, st):
+        if isinstance(stmt, ast.Assign) and len(stmt.targets) == 1 and \
+                isinstance(stmt.targets[0], ast.Name):
+            v = self.truth(stmt.value)
+            if v is None:
+                self.env.pop(stmt.targets[0].id, None)
+            else:
+                self.env[stmt.targets[0].id] = v
+        return st
+
+
 def rule_raise_exit(model):
     r = RuleResult('C14.R6-R7', 'dtml-raise has no normal exit; handlers are '
                    'searched first-match in written order with base-class '
@@ -461,17 +522,37 @@ def rule_raise_exit(model):
     if len(hloops) != 1:
         ok = False
     else:
-        # one decision per handler: a single `if` whose test offers the
-        # three alternatives (exact name, bare except, base class)
-        ifs = [x for x in hloops[0].body if isinstance(x, ast.If)]
-        if len(ifs) != 1 or len(hloops[0].body) != 1:
-            ok = False
-        else:
-            t = ast.unparse(ifs[0].test)
-            if not ('__name__' in t and "''" in t and 'match_base' in t
-                    and isinstance(ifs[0].test, ast.BoolOp)
-                    and isinstance(ifs[0].test.op, ast.Or)):
+        # one decision per handler, decided semantically: for every truth
+        # assignment of (exact class name, bare except, base class) the
+        # loop body returns the handler's block iff one of them holds and
+        # otherwise goes on with the next handler
+        import itertools
+        lp = hloops[0]
+        tnames = sorted(x.id for x in ast.walk(lp.target)
+                        if isinstance(x, ast.Name))
+        for exact, bare, base in itertools.product([False, True], repeat=3):
+            dom = _HandlerDomain(exact, bare, base)
+            outs = Interp(dom).block(lp.body, _HS())
+            kinds = set()
+            for o in outs:
+                if o.kind == 'return':
+                    kinds.add('return ' + (norm(o.node.value)
+                                           if o.node is not None and
+                                           o.node.value is not None
+                                           else 'None'))
+                elif o.kind in ('normal', 'continue'):
+                    kinds.add('next')
+                else:
+                    kinds.add(o.kind)
+            want_ret = exact or bare or base
+            good = (len(kinds) == 1 and (
+                (want_ret and next(iter(kinds)).startswith('return ') and
+                 next(iter(kinds))[7:] in tnames) or
+                (not want_ret and kinds == {'next'})))
+            if not good:
                 ok = False
+                r.instance(fh.where, f'exact={exact} bare={bare} '
+                           f'base={base}', 'WRONG: ' + '/'.join(sorted(kinds)))
     if not ok:
         r.finding(fh.where, 'handler search loop', 'handlers are not '
                   'searched first-match in the order written (direct loop '
